@@ -350,7 +350,9 @@ func (s StructDecl) homeRef() string {
 }
 
 // "i" and "e" are the names the generated slice loops use for index and element: a declared operand name must survive them
-var paramNames = []string{"in", "from", "s", "p", "e", "i"}
+// "_" is a legal parameter name too: the source cannot be read through it, so the function needs a name of its own (or the
+// method is refused)
+var paramNames = []string{"in", "from", "s", "p", "e", "i", "_"}
 var resultNames = []string{"out", "to", "d", "res", "e", "i"}
 var extraTypes = []string{"int", "string", "LInt", "*LInner", "ext.MyInt", "[]int", "bool", "[]LInt", "map[string]ext.MyInt", "[]*ext.Inner", "func(LInt) ext.MyInt", "*ext.Inner", "*LInner", "LInner", "*ext.Cat"}
 
@@ -977,6 +979,12 @@ func GenProg(t *rapid.T, pf Profile) *Prog {
 			m.Opts.Typecast = 1
 			it.Methods = append(it.Methods, m)
 		}
+		// operand types that reach the setup file through a dot import (written without qualifier there and in the output)
+		if pf.ExtStructs && rapid.IntRange(0, 7).Draw(t, "dotTypes") == 0 {
+			m := Method{Name: fmt.Sprintf("Convert%02dDotTypes", mi), SrcType: "DotS", DstType: "DotD", SrcPtr: rapid.Bool().Draw(t, "dotSrcPtr"), DstPtr: true}
+			mi++
+			it.Methods = append(it.Methods, m)
+		}
 		// methods over the package-layout zoo (directory != package name, /v2 path, two packages of the
 		// same name under aliases)
 		if pf.ExtStructs && rapid.IntRange(0, 3).Draw(t, "layoutMethod") == 0 {
@@ -1097,6 +1105,10 @@ func (p *Prog) FixImports() {
 	}
 	for _, k := range KnownPkgs {
 		if k.Qual == "dotfn" {
+			if strings.Contains(sigText.String(), "DotS") || strings.Contains(sigText.String(), "DotD") {
+				p.Imports = append(p.Imports, Import{Name: ".", Path: k.Path})
+				continue
+			}
 			for _, d := range DotFuncs {
 				if strings.Contains(noteText.String(), " "+d) {
 					p.Imports = append(p.Imports, Import{Name: ".", Path: k.Path})
